@@ -215,7 +215,19 @@ SPEC = {
             "function (trampoline target, trampoline) + reference evaluation of the IR + evaluation of the emitted tree; "
             "the model answers with its own tree, the Lean Ir.phi and the Lean Msl.phi (Spec/SemMsl) on its tree; the "
             "oracle runs the emitted module under a C++/Metal evaluator with reference parameters and compares return "
-            "value, out/inout results and statics with the IR evaluation bit for bit on 4-6 argument vectors",
+            "value, out/inout results and statics with the IR evaluation bit for bit on 4-6 argument vectors. Vector layer "
+            "(streams C02.vfn / C02.vex): the vector / matrix / struct / array / enum / method / template / overload / default-"
+            "parameter programs of C01's generator (c01/vgen.rs, unchanged), matrix programs in the forms the Metal backend accepts "
+            "(whole-matrix parameters, statics, struct members, out/inout matrices, + - *, constructors, scalar casts, mul, "
+            "transpose) and programs around scalar swizzles, enum arithmetic, prototypes, value templates and nested structs are "
+            "exported by the real Metal exporter; the typed IR is evaluated by C01's reference evaluator (c01/virev.rs, unchanged; "
+            "mul / transpose restored as uninterpreted built-ins), the emitted tree by an independent Metal reading "
+            "(harness/src/c02/vmev*.rs: vector / matrix / struct / array values, places, thread references, C++ aggregates, methods "
+            "on the object's place, Metal's conversion rules, column-major matrices); return value, final out/inout arguments, "
+            "final statics and initial values of file-scope constants are compared bit for bit on 5 argument vectors per function; "
+            "C02.vex sends expression functions and statement-level vector assignments to the Lean vector model (tree of "
+            "Model.GenMslVec == exporter's tree, Lean VIr.eval == Rust IR evaluation, Lean VMsl.eval == VIr.eval under the "
+            "theorems' hypotheses)",
     "level_text": "Proof of the logic of implicit threading: the usage fixpoint loop (modelled with explicit key iteration "
                   "order, explicit unwrap failures and fuel) is proved for every table to terminate within |keys|^2+1 passes "
                   "without panicking, to compute exactly reachability through the local-use relation independently of the "
@@ -237,7 +249,20 @@ SPEC = {
                   "typed copy-in/copy-out call at every depth, under the semantic precondition that functions with out "
                   "parameters do not depend on their entry value). Outside the side conditions the statement is false on the current code: "
                   "negations with witnesses (INT_MIN / literal arithmetic typed long/int in Metal; inout copy-in after "
-                  "later arguments), both replayed on the real exporter as known findings.",
+                  "later arguments), both replayed on the real exporter as known findings. Vector layer (Thm/C02Vec): for the "
+                  "model Model/GenMslVec of the Cast (with try_implicit_truncate), Swizzle (vector and scalar halves), Constructor, "
+                  "vector-type-name and component-wise operator arms (text of every arm re-extracted: Gen.MslVecTables) "
+                  "gen_sem_msl_vec_expr proves by induction, re-using the scalar gen_sem_expr at the leaves, that the emitted "
+                  "expression is well typed under Metal's rules (Spec/SemMslVec: no implicit vector conversions, no vector->scalar "
+                  "or narrowing casts, members on vectors only, no promotion inside vectors, no % on floats) with exactly the IR's "
+                  "type and evaluates to the IR's value and store for every store, every interpretation of the primitives and "
+                  "every well-shaped value of the vector variables; vec_shape_sound (the typed semantics yields values of the "
+                  "static shape) discharges the static decisions; gen_sem_msl_vec_assign covers statement-level assignment and "
+                  "compound assignment to vector variables and swizzles; mulMV_toMetal proves that on the exporter's matrix "
+                  "correspondence (floatRxC |-> metal::floatCxR, the same logical matrix by columns) Metal's M*v is RSSL's "
+                  "mul(M,v); negation witnesses: the matrix constructor keeps row-major argument order (transposed matrix), "
+                  "(float1)v is emitted as an ill-typed (float)v. Matrices, structs, arrays, enums, methods, calls with vector "
+                  "arguments are covered by the correspondence streams only.",
     "trusted_base": [
         "Lean 4.33 kernel; axioms propext / Classical.choice / Quot.sound only (audited by #print axioms)",
         "tools/gens/c02.py (UsageTables): match-arm/field inventory of gather_usage_*, regex shape facts about "
@@ -265,6 +290,21 @@ SPEC = {
         "copied in when the argument list reaches it, left to right",
         "harness/src/c02/msleval.rs: an independent Rust implementation of the same Metal reading; the Lean Msl.phi and it "
         "are compared on every generated case (0 disagreements), as are Lean Ir.phi and the Rust IR evaluator of C01",
+        "tools/gens/c02.py (MslVecTables): exact-text facts about the Swizzle / Constructor / Cast arms of the Metal "
+        "generate_expression, try_implicit_truncate's three members, the Vector / Matrix arms of generate_type_impl, the Mul / "
+        "Transpose arms of generate_intrinsic_function, the rejection of matrix subscripts / matrix swizzles",
+        "Spec/SemMslVec.lean: our reading of Metal's vector rules (MSL specification): type names bool/int/uint/float and "
+        "T2..T4 only; implicit conversion scalar->scalar and scalar->vector only; explicit conversion scalar->scalar, "
+        "scalar->vector (replicated), vector->vector of the same size; constructors flatten; .xyzw members on vectors only; "
+        "component-wise operators on operands of one vector type, a scalar operand converted to the element type; no integer "
+        "promotion inside vectors; `%`/`%=` undefined on floats, metal::fmod = the float remainder; swizzled assignment "
+        "targets need distinct components; matrices floatCxR = C columns of R, constructor from scalars column-major, from one "
+        "scalar diagonal, m[i] a column, M*v the linear-algebra product (Mat section: definitions used by mulMV_toMetal)",
+        "the typed vector semantics Spec/SemVec of C01 (VIr.eval / evalTop / typeOf, shared, unchanged)",
+        "harness/src/c02/vmev*.rs: an independent Rust implementation of the Metal reading extended to matrices, structs, "
+        "arrays, enums, methods, references, aggregates and the metal:: library names (uninterpreted built-ins of c01/vval.rs "
+        "under the name of the RSSL built-in they implement; `1 / x` = rcp; select argument order reversed); compared with "
+        "the Lean VMsl.eval through the model answers of C02.vex, and with C01's IR evaluator on every C02.vfn case",
     ],
     "assumptions": [
         "names: every global/function/parameter keeps a distinct Metal name (C15); the model works on indices",
@@ -285,5 +325,19 @@ SPEC = {
         "the entry value of an out parameter (the source writes it first: no definite-assignment analysis is formalised); "
         "syntactically (SynOK) that no function mentions a trampoline's scratch slot and that a void function with a "
         "trampoline has no `return e;`",
+        "vector layer, side conditions of gen_sem_msl_vec_expr / _assign (Spec/SemMslVec VOk.okMV, placeOKM): types are "
+        "bool/int/uint/float scalars or 2-4 component vectors (no float1: emitted as the scalar, known finding for the cast; "
+        "no literal kinds: vectors of literal types panic, known finding); no widening vector casts; unary - + ~ and binary "
+        "arithmetic / bitwise / relational operators on *scalar* operands need int/uint/float (bool scalars are promoted in "
+        "C++: oracle only); scalar leaves satisfy the scalar side conditions and are not the bare Int32(i32::MIN); vector "
+        "variables are in scope under their emitted names (C15) and hold values of their declared shape (vec_shape_sound "
+        "propagates it); `&&` `||` `?:` have scalar bool conditions (the type checker's own restriction in VIr.typeOf); "
+        "assignment targets are vector variables or swizzles with distinct components of variables of vector type; `%=` on "
+        "integers only (on floats: known finding). 95% of the generated expression / assignment functions satisfy them",
+        "vector stream oracle: a method call whose argument writes the object is skipped (C01's typed evaluator copies the "
+        "object in and out, C++ and DXC pass `this` by reference: not a difference of the exporter); built-ins whose Metal form "
+        "is not a call of one library function (sign on ints, rcp only as `1 / x`) are skipped or read as stated above; initial "
+        "values of threaded statics are taken from the IR evaluation (their initialisers are emitted by the entry wrapper, "
+        "pipeline.rs, which verif_generate_ast does not run)",
     ],
 }
